@@ -7,12 +7,6 @@ From Muscle Require Import Cont.QueueModel Cont.QueueLemmas Cont.QueueInv Cont.Q
 Import ListNotations.
 Local Open Scope nat_scope.
 
-Lemma skipn_skipn' {A} (a b : nat) (l : list A) : skipn a (skipn b l) = skipn (b + a) l.
-Proof.
-  revert l. induction b as [|b IH]; intros l; [reflexivity|].
-  destruct l as [|x l]; [rewrite !skipn_nil; reflexivity|]. cbn [skipn Nat.add]. apply IH.
-Qed.
-
 (* ------------------------------------------------------------------ the ideal stable sort *)
 
 Section StableSort.
